@@ -370,16 +370,29 @@ def dhash (m : Msg) : Res (Option UInt64) :=
   | (_, .oob) => .oob
   | (_, .fault) => .fault
 
+/-- one part through `mpt_stream_push` / `mpt_array_push`: the push may take only the first `step n` bytes (1..n) of
+    the `n` offered (write queue full, encoder buffer extended in passes); the caller goes on behind the bytes
+    taken (`base += curr; used -= curr; continue`) until the part is used up -/
+def pushPart (step : Nat → Nat) : Nat → Frag → List Byte → Nat → List Byte × Nat
+  | 0, _, cur, total => (cur, total)
+  | fuel + 1, f, cur, total =>
+    if f.length = 0 then (cur, total) else
+    let k := Nat.max 1 (Nat.min (step f.length) f.length)
+    pushPart step fuel (f.drop k) (cur ++ f.take k) (total + k)
+
 /-- `mpt_stream_append(stream, msg)` (mptio/stream/stream_append.c after fix 7541cab) and the closing
-    `mpt_stream_push(stream, 0, 0)`: every non-empty part is pushed, a push of length 0 would end the
-    message; `cur` = bytes of the message under construction, `done` = messages finished so far -/
-def sappendLoop : List Frag → List Byte → List (List Byte) → Nat → Nat × List Byte × List (List Byte)
+    `mpt_stream_push(stream, 0, 0)`, likewise `mpt::encode_array::push(const message &)` (mpt++/array.cpp): every
+    non-empty part is pushed, in as many steps as the push function needs; a push of length 0 would end the
+    message.  `cur` = bytes of the message under construction, `done` = messages finished so far -/
+def sappendLoop (step : Nat → Nat) : List Frag → List Byte → List (List Byte) → Nat → Nat × List Byte × List (List Byte)
   | [], cur, done, total => (total, cur, done)
   | f :: fs, cur, done, total =>
-    if f.length ≠ 0 then sappendLoop fs (cur ++ f) done (total + f.length)
-    else sappendLoop fs cur done total
-def sappend (m : Msg) : Nat × List (List Byte) :=
-  let r := sappendLoop (m.base :: m.cont) [] [] 0
+    if f.length ≠ 0 then
+      let r := pushPart step f.length f cur total
+      sappendLoop step fs r.1 done r.2
+    else sappendLoop step fs cur done total
+def sappend (m : Msg) (step : Nat → Nat := id) : Nat × List (List Byte) :=
+  let r := sappendLoop step (m.base :: m.cont) [] [] 0
   (r.1, r.2.2 ++ [r.2.1])
 
 /-- `mpt_message_get` with `vec = NULL`: a stretch that needs a second fragment is refused (−3) -/
